@@ -4,13 +4,14 @@
 //   tcv-server <mode> --seed S --n N --out DIR        generate / execute / judge
 //   tcv-server replay --file F                         re-execute a replay file
 //
-// modes: resp cmd conn actor metrics wire
+// modes: resp cmd conn actor metrics wire binary
 //
 // Writes DIR/<mode>.ops (driver request lines), DIR/<mode>.imp (what the real code
 // answered), DIR/<mode>.viol (violations of the property on the real code, with replays),
 // DIR/<mode>.stats.json.
 #![allow(dead_code)] // util.rs is a verbatim copy of tcv-core's
 mod actor;
+mod binary;
 mod cmd;
 mod conn;
 mod metrics;
@@ -70,6 +71,7 @@ fn main() {
         "actor" => actor::run(seed, n, &mut out),
         "metrics" => metrics::run(seed, n, &mut out),
         "wire" => wire::run(seed, n, &mut out),
+        "binary" => binary::run(seed, n, &mut out),
         "replay" => {
             replay::run(&file);
             return;
